@@ -113,6 +113,8 @@ fn striped_for(s: &[Nucleotide], pssm: &ScoringMatrix<Dna>) -> StripedSequence<D
     let mut st: StripedSequence<Dna, U32> = Pipeline::<Dna, _>::generic().stripe(s);
     // history: the same striped sequence was first configured for a LONGER motif (look-ahead rows only ever grow)
     if s.len() % 3 == 1 { st.configure_wrap(pssm.len() + 1 + s.len() % 5); }
+    // ... or first for a SHORTER one (the missing look-ahead rows are appended by the second call)
+    if s.len() % 3 == 2 && pssm.len() > 2 { st.configure_wrap(1 + s.len() % (pssm.len() - 2)); }
     st.configure(pssm);
     st
 }
